@@ -144,6 +144,7 @@ func runC02(p *core.Program, r *core.Report) {
 // a decoded map with more entries than the initial threshold is only equal to what was written if
 // growth, re-bucketing and lookup agree.
 func c02Backing(p *core.Program, r *core.Report) {
+	hmapProg = p
 	modes := hmapModes(p)
 	seen := map[*types.Named]bool{}
 	for _, tn := range []string{"MapValue", "IntMapValue"} {
